@@ -537,6 +537,12 @@ func (e *Engine) assignTo(st *State, lhs ast.Expr, v *Val, pos token.Pos) []*Sta
 			o.st.heap[o.loc] = v
 			o.st.written[o.loc] = true
 			e.invalidatePrefix(o.st, o.loc)
+			// a fresh map installed in a field keeps the field's location: later accesses through the field are accesses of that field's map
+			if v != nil && v.Kind == KAlloc && v.Field == nil && v.Type != nil {
+				if _, isMap := v.Type.Underlying().(*types.Map); isMap {
+					v.Field, v.Path, v.Recv = o.field, o.loc, o.base
+				}
+			}
 			e.emit(o.st, &Event{Kind: EvFieldWrite, Pos: pos, Path: o.loc, Field: o.field, Value: v, Recv: o.base})
 			out = append(out, o.st)
 		}
